@@ -442,6 +442,19 @@ def numeric_facts(v0, v1, sim0, sim1, env) -> Dict[str, Any]:
         "gain_le_plug": True,
         "plugmax": -1,
     }
+    # the travel times of the route's links at the speeds the road network reports NOW (what traverse() must use), when
+    # they differ from the speeds stored in the route (a co-simulation user swapped in a network with other speeds)
+    route0 = getattr(v0.vehicle_state, "route", None)
+    if route0:
+        now, differs = [], False
+        for l in route0:
+            gt = sim0.road_network.link_from_link_id(l.link_id)
+            sp = gt.speed_kmph if gt is not None and gt.speed_kmph else l.speed_kmph
+            differs = differs or sp != l.speed_kmph
+            tt_h = (l.distance_km / sp) if sp else 0.0
+            now.append([int(round(tt_h * 3600_000)), int(tt_h * 3600)])
+        if differs:
+            facts["rt_now"] = now
     # a powertrain DEFINED with an idle consumption of zero (denver_rl_toy's toy_car) has nothing to expend when idling
     mech = env.mechatronics.get(v1.mechatronics_id)
     rate = getattr(mech, "idle_kwh_per_hour", getattr(mech, "idle_gallons_per_hour", None))
